@@ -16,7 +16,21 @@
    7  client-side randomness (not reachable from keepers / abci / ante)
    8  unstable sort with observable ties, deterministic for a fixed Go toolchain
       (assumption on the toolchain, not proved; C06's theorems hold for every tie-breaking)
-   9  anything else: NOT covered (must not occur) *)
+   9  anything else: NOT covered (must not occur)
+   10 field of a struct that lives as long as the process and is reachable from block
+      execution (App, keepers, ante decorators, msg/query servers, hooks, handlers, AppModule):
+      wiring fixed at construction (store keys, codecs, param subspaces, references to other
+      keepers, routers, hooks, authority/name strings, permission tables copied from app.go) —
+      never written while blocks execute; an added field (e.g. an in-memory cache that is not
+      rolled back with a failed transaction and is empty after a restart) is a NEW ROW
+   11 package-level map: a lookup table filled by its initialiser and only read afterwards
+   12 time.Unix(...): the value carries the process-local zone; at every listed site it is
+      either canonicalised to UTC (tmtime.Canonical / .UTC()) or only compared / converted
+      back with .Unix(), so no zone-dependent bytes reach a store, an event or a result
+   13 time.Time.MarshalBinary of a store value: the encoding contains the zone offset; at every
+      listed site the argument is the header time (UTC, canonical) or a value derived from it
+      by Add — never a time built with time.Unix / time.Now / time.Date(…, time.Local)
+      (classes 12-13 are exercised by the C01 driver's child process running in UTC+05:45) *)
 From Coq Require Import List String.
 Import ListNotations.
 Open Scope string_scope.
@@ -65,12 +79,316 @@ Definition sites : list (string * nat) := [
   ("x/pricefeed/abci.go|EndBlocker|time.Now||telemetry", 6%nat);
   ("x/pricefeed/keeper/keeper.go|Keeper.CalculateMedianPrice|sort.Slice|prices", 3%nat);
   ("x/swap/keeper/invariants.go|PoolSharesInvariant|maprange|totalShares", 1%nat);
-  ("x/swap/types/genesis.go|GenesisState.Validate|maprange|totalShares", 1%nat)
+  ("x/swap/types/genesis.go|GenesisState.Validate|maprange|totalShares", 1%nat);
+  ("app/ante/authorized.go|AuthenticatedMempoolDecorator|field|addressFetchers []AddressFetcher", 10%nat);
+  ("app/ante/authz.go|AuthzLimiterDecorator|field|disabledMsgTypes []string", 10%nat);
+  ("app/ante/vesting.go|VestingAccountDecorator|field|disabledMsgTypeUrls []string", 10%nat);
+  ("app/app.go|<package>|pkgvar|ModuleBasics module.BasicManager", 11%nat);
+  ("app/app.go|<package>|pkgvar|mAccPerms map[string][]string", 11%nat);
+  ("app/app.go|App|field|(embedded) *baseapp.BaseApp", 10%nat);
+  ("app/app.go|App|field|ScopedIBCKeeper capabilitykeeper.ScopedKeeper", 10%nat);
+  ("app/app.go|App|field|ScopedTransferKeeper capabilitykeeper.ScopedKeeper", 10%nat);
+  ("app/app.go|App|field|accountKeeper authkeeper.AccountKeeper", 10%nat);
+  ("app/app.go|App|field|appCodec codec.Codec", 10%nat);
+  ("app/app.go|App|field|auctionKeeper auctionkeeper.Keeper", 10%nat);
+  ("app/app.go|App|field|authzKeeper authzkeeper.Keeper", 10%nat);
+  ("app/app.go|App|field|bankKeeper bankkeeper.Keeper", 10%nat);
+  ("app/app.go|App|field|bep3Keeper bep3keeper.Keeper", 10%nat);
+  ("app/app.go|App|field|capabilityKeeper *capabilitykeeper.Keeper", 10%nat);
+  ("app/app.go|App|field|cdpKeeper cdpkeeper.Keeper", 10%nat);
+  ("app/app.go|App|field|committeeKeeper committeekeeper.Keeper", 10%nat);
+  ("app/app.go|App|field|communityKeeper communitykeeper.Keeper", 10%nat);
+  ("app/app.go|App|field|configurator module.Configurator", 10%nat);
+  ("app/app.go|App|field|consensusParamsKeeper consensusparamkeeper.Keeper", 10%nat);
+  ("app/app.go|App|field|crisisKeeper crisiskeeper.Keeper", 10%nat);
+  ("app/app.go|App|field|distrKeeper distrkeeper.Keeper", 10%nat);
+  ("app/app.go|App|field|earnKeeper earnkeeper.Keeper", 10%nat);
+  ("app/app.go|App|field|evidenceKeeper evidencekeeper.Keeper", 10%nat);
+  ("app/app.go|App|field|evmKeeper *evmkeeper.Keeper", 10%nat);
+  ("app/app.go|App|field|evmutilKeeper evmutilkeeper.Keeper", 10%nat);
+  ("app/app.go|App|field|feeMarketKeeper feemarketkeeper.Keeper", 10%nat);
+  ("app/app.go|App|field|govKeeper govkeeper.Keeper", 10%nat);
+  ("app/app.go|App|field|hardKeeper hardkeeper.Keeper", 10%nat);
+  ("app/app.go|App|field|ibcKeeper *ibckeeper.Keeper", 10%nat);
+  ("app/app.go|App|field|incentiveKeeper incentivekeeper.Keeper", 10%nat);
+  ("app/app.go|App|field|interfaceRegistry types.InterfaceRegistry", 10%nat);
+  ("app/app.go|App|field|issuanceKeeper issuancekeeper.Keeper", 10%nat);
+  ("app/app.go|App|field|kavadistKeeper kavadistkeeper.Keeper", 10%nat);
+  ("app/app.go|App|field|keys map[string]*storetypes.KVStoreKey", 10%nat);
+  ("app/app.go|App|field|legacyAmino *codec.LegacyAmino", 10%nat);
+  ("app/app.go|App|field|liquidKeeper liquidkeeper.Keeper", 10%nat);
+  ("app/app.go|App|field|memKeys map[string]*storetypes.MemoryStoreKey", 10%nat);
+  ("app/app.go|App|field|mintKeeper mintkeeper.Keeper", 10%nat);
+  ("app/app.go|App|field|mm *module.Manager", 10%nat);
+  ("app/app.go|App|field|packetForwardKeeper *packetforwardkeeper.Keeper", 10%nat);
+  ("app/app.go|App|field|paramsKeeper paramskeeper.Keeper", 10%nat);
+  ("app/app.go|App|field|precisebankKeeper precisebankkeeper.Keeper", 10%nat);
+  ("app/app.go|App|field|pricefeedKeeper pricefeedkeeper.Keeper", 10%nat);
+  ("app/app.go|App|field|routerKeeper routerkeeper.Keeper", 10%nat);
+  ("app/app.go|App|field|savingsKeeper savingskeeper.Keeper", 10%nat);
+  ("app/app.go|App|field|slashingKeeper slashingkeeper.Keeper", 10%nat);
+  ("app/app.go|App|field|sm *module.SimulationManager", 10%nat);
+  ("app/app.go|App|field|stakingKeeper *stakingkeeper.Keeper", 10%nat);
+  ("app/app.go|App|field|swapKeeper swapkeeper.Keeper", 10%nat);
+  ("app/app.go|App|field|tkeys map[string]*storetypes.TransientStoreKey", 10%nat);
+  ("app/app.go|App|field|transferKeeper ibctransferkeeper.Keeper", 10%nat);
+  ("app/app.go|App|field|upgradeKeeper upgradekeeper.Keeper", 10%nat);
+  ("app/tally_handler.go|TallyHandler|field|bk bankkeeper.Keeper", 10%nat);
+  ("app/tally_handler.go|TallyHandler|field|ek earnkeeper.Keeper", 10%nat);
+  ("app/tally_handler.go|TallyHandler|field|gk govkeeper.Keeper", 10%nat);
+  ("app/tally_handler.go|TallyHandler|field|lk liquidkeeper.Keeper", 10%nat);
+  ("app/tally_handler.go|TallyHandler|field|stk stakingkeeper.Keeper", 10%nat);
+  ("app/tally_handler.go|TallyHandler|field|svk savingskeeper.Keeper", 10%nat);
+  ("app/test_common.go|genesisStateWithValSet|time.Unix|time.Unix(0, 0)", 5%nat);
+  ("x/auction/keeper/grpc_query.go|queryServer|field|keeper Keeper", 10%nat);
+  ("x/auction/keeper/keeper.go|Keeper|field|accountKeeper types.AccountKeeper", 10%nat);
+  ("x/auction/keeper/keeper.go|Keeper|field|bankKeeper types.BankKeeper", 10%nat);
+  ("x/auction/keeper/keeper.go|Keeper|field|cdc codec.Codec", 10%nat);
+  ("x/auction/keeper/keeper.go|Keeper|field|paramSubspace paramtypes.Subspace", 10%nat);
+  ("x/auction/keeper/keeper.go|Keeper|field|storeKey storetypes.StoreKey", 10%nat);
+  ("x/auction/keeper/msg_server.go|msgServer|field|keeper Keeper", 10%nat);
+  ("x/auction/module.go|AppModule|field|(embedded) AppModuleBasic", 10%nat);
+  ("x/auction/module.go|AppModule|field|accountKeeper types.AccountKeeper", 10%nat);
+  ("x/auction/module.go|AppModule|field|bankKeeper types.BankKeeper", 10%nat);
+  ("x/auction/module.go|AppModule|field|keeper keeper.Keeper", 10%nat);
+  ("x/bep3/keeper/grpc_query.go|queryServer|field|keeper Keeper", 10%nat);
+  ("x/bep3/keeper/keeper.go|Keeper.SetPreviousBlockTime|time.Time.MarshalBinary|blockTime.MarshalBinary()", 13%nat);
+  ("x/bep3/keeper/keeper.go|Keeper|field|Maccs map[string]bool", 10%nat);
+  ("x/bep3/keeper/keeper.go|Keeper|field|accountKeeper types.AccountKeeper", 10%nat);
+  ("x/bep3/keeper/keeper.go|Keeper|field|bankKeeper types.BankKeeper", 10%nat);
+  ("x/bep3/keeper/keeper.go|Keeper|field|cdc codec.Codec", 10%nat);
+  ("x/bep3/keeper/keeper.go|Keeper|field|key storetypes.StoreKey", 10%nat);
+  ("x/bep3/keeper/keeper.go|Keeper|field|paramSubspace paramtypes.Subspace", 10%nat);
+  ("x/bep3/keeper/msg_server.go|msgServer|field|keeper Keeper", 10%nat);
+  ("x/bep3/keeper/swap.go|Keeper.CreateAtomicSwap|time.Unix|time.Unix(timestamp, 0)", 12%nat);
+  ("x/bep3/module.go|AppModule|field|(embedded) AppModuleBasic", 10%nat);
+  ("x/bep3/module.go|AppModule|field|accountKeeper types.AccountKeeper", 10%nat);
+  ("x/bep3/module.go|AppModule|field|bankKeeper types.BankKeeper", 10%nat);
+  ("x/bep3/module.go|AppModule|field|keeper keeper.Keeper", 10%nat);
+  ("x/bep3/types/params.go|<file>|time.Unix|time.Unix(1, 0)", 12%nat);
+  ("x/cdp/keeper/grpc_query.go|QueryServer|field|keeper Keeper", 10%nat);
+  ("x/cdp/keeper/keeper.go|Keeper.SetPreviousAccrualTime|time.Time.MarshalBinary|previousAccrualTime.MarshalBinary()", 13%nat);
+  ("x/cdp/keeper/keeper.go|Keeper|field|accountKeeper types.AccountKeeper", 10%nat);
+  ("x/cdp/keeper/keeper.go|Keeper|field|auctionKeeper types.AuctionKeeper", 10%nat);
+  ("x/cdp/keeper/keeper.go|Keeper|field|bankKeeper types.BankKeeper", 10%nat);
+  ("x/cdp/keeper/keeper.go|Keeper|field|cdc codec.Codec", 10%nat);
+  ("x/cdp/keeper/keeper.go|Keeper|field|hooks types.CDPHooks", 10%nat);
+  ("x/cdp/keeper/keeper.go|Keeper|field|key storetypes.StoreKey", 10%nat);
+  ("x/cdp/keeper/keeper.go|Keeper|field|maccPerms map[string][]string", 10%nat);
+  ("x/cdp/keeper/keeper.go|Keeper|field|paramSubspace paramtypes.Subspace", 10%nat);
+  ("x/cdp/keeper/keeper.go|Keeper|field|pricefeedKeeper types.PricefeedKeeper", 10%nat);
+  ("x/cdp/keeper/msg_server.go|msgServer|field|keeper Keeper", 10%nat);
+  ("x/cdp/module.go|AppModule|field|(embedded) AppModuleBasic", 10%nat);
+  ("x/cdp/module.go|AppModule|field|accountKeeper types.AccountKeeper", 10%nat);
+  ("x/cdp/module.go|AppModule|field|bankKeeper types.BankKeeper", 10%nat);
+  ("x/cdp/module.go|AppModule|field|keeper keeper.Keeper", 10%nat);
+  ("x/cdp/module.go|AppModule|field|pricefeedKeeper types.PricefeedKeeper", 10%nat);
+  ("x/committee/keeper/grpc_query.go|queryServer|field|keeper Keeper", 10%nat);
+  ("x/committee/keeper/keeper.go|Keeper|field|accountKeeper types.AccountKeeper", 10%nat);
+  ("x/committee/keeper/keeper.go|Keeper|field|bankKeeper types.BankKeeper", 10%nat);
+  ("x/committee/keeper/keeper.go|Keeper|field|cdc codec.Codec", 10%nat);
+  ("x/committee/keeper/keeper.go|Keeper|field|paramKeeper types.ParamKeeper", 10%nat);
+  ("x/committee/keeper/keeper.go|Keeper|field|router govv1beta1.Router", 10%nat);
+  ("x/committee/keeper/keeper.go|Keeper|field|storeKey storetypes.StoreKey", 10%nat);
+  ("x/committee/keeper/msg_server.go|msgServer|field|keeper Keeper", 10%nat);
+  ("x/committee/module.go|AppModule|field|(embedded) AppModuleBasic", 10%nat);
+  ("x/committee/module.go|AppModule|field|accountKeeper types.AccountKeeper", 10%nat);
+  ("x/committee/module.go|AppModule|field|keeper keeper.Keeper", 10%nat);
+  ("x/committee/types/proposal.go|<package>|pkgvar|toString map[types.ProposalOutcome]string", 11%nat);
+  ("x/community/keeper/grpc_query.go|queryServer|field|keeper Keeper", 10%nat);
+  ("x/community/keeper/keeper.go|Keeper|field|accountKeeper types.AccountKeeper", 10%nat);
+  ("x/community/keeper/keeper.go|Keeper|field|authority sdk.AccAddress", 10%nat);
+  ("x/community/keeper/keeper.go|Keeper|field|bankKeeper types.BankKeeper", 10%nat);
+  ("x/community/keeper/keeper.go|Keeper|field|cdc codec.Codec", 10%nat);
+  ("x/community/keeper/keeper.go|Keeper|field|cdpKeeper types.CdpKeeper", 10%nat);
+  ("x/community/keeper/keeper.go|Keeper|field|distrKeeper types.DistributionKeeper", 10%nat);
+  ("x/community/keeper/keeper.go|Keeper|field|hardKeeper types.HardKeeper", 10%nat);
+  ("x/community/keeper/keeper.go|Keeper|field|kavadistKeeper types.KavadistKeeper", 10%nat);
+  ("x/community/keeper/keeper.go|Keeper|field|key storetypes.StoreKey", 10%nat);
+  ("x/community/keeper/keeper.go|Keeper|field|legacyCommunityPoolAddress sdk.AccAddress", 10%nat);
+  ("x/community/keeper/keeper.go|Keeper|field|mintKeeper types.MintKeeper", 10%nat);
+  ("x/community/keeper/keeper.go|Keeper|field|moduleAddress sdk.AccAddress", 10%nat);
+  ("x/community/keeper/keeper.go|Keeper|field|stakingKeeper types.StakingKeeper", 10%nat);
+  ("x/community/keeper/msg_server.go|msgServer|field|keeper Keeper", 10%nat);
+  ("x/community/module.go|AppModule|field|(embedded) AppModuleBasic", 10%nat);
+  ("x/community/module.go|AppModule|field|accountKeeper types.AccountKeeper", 10%nat);
+  ("x/community/module.go|AppModule|field|keeper keeper.Keeper", 10%nat);
+  ("x/earn/keeper/grpc_query.go|queryServer|field|keeper Keeper", 10%nat);
+  ("x/earn/keeper/keeper.go|Keeper|field|accountKeeper types.AccountKeeper", 10%nat);
+  ("x/earn/keeper/keeper.go|Keeper|field|bankKeeper types.BankKeeper", 10%nat);
+  ("x/earn/keeper/keeper.go|Keeper|field|cdc codec.Codec", 10%nat);
+  ("x/earn/keeper/keeper.go|Keeper|field|distKeeper types.DistributionKeeper", 10%nat);
+  ("x/earn/keeper/keeper.go|Keeper|field|hardKeeper types.HardKeeper", 10%nat);
+  ("x/earn/keeper/keeper.go|Keeper|field|hooks types.EarnHooks", 10%nat);
+  ("x/earn/keeper/keeper.go|Keeper|field|key storetypes.StoreKey", 10%nat);
+  ("x/earn/keeper/keeper.go|Keeper|field|liquidKeeper types.LiquidKeeper", 10%nat);
+  ("x/earn/keeper/keeper.go|Keeper|field|paramSubspace paramtypes.Subspace", 10%nat);
+  ("x/earn/keeper/keeper.go|Keeper|field|savingsKeeper types.SavingsKeeper", 10%nat);
+  ("x/earn/keeper/msg_server.go|msgServer|field|keeper Keeper", 10%nat);
+  ("x/earn/module.go|AppModule|field|(embedded) AppModuleBasic", 10%nat);
+  ("x/earn/module.go|AppModule|field|accountKeeper authkeeper.AccountKeeper", 10%nat);
+  ("x/earn/module.go|AppModule|field|bankKeeper types.BankKeeper", 10%nat);
+  ("x/earn/module.go|AppModule|field|keeper keeper.Keeper", 10%nat);
+  ("x/evmutil/keeper/conversion_evm_native_bep3.go|<package>|pkgvar|bep3Denoms map[string]bool", 11%nat);
+  ("x/evmutil/keeper/grpc_query.go|queryServer|field|keeper Keeper", 10%nat);
+  ("x/evmutil/keeper/keeper.go|Keeper|field|accountKeeper types.AccountKeeper", 10%nat);
+  ("x/evmutil/keeper/keeper.go|Keeper|field|bankKeeper types.BankKeeper", 10%nat);
+  ("x/evmutil/keeper/keeper.go|Keeper|field|cdc codec.Codec", 10%nat);
+  ("x/evmutil/keeper/keeper.go|Keeper|field|evmKeeper types.EvmKeeper", 10%nat);
+  ("x/evmutil/keeper/keeper.go|Keeper|field|paramSubspace paramtypes.Subspace", 10%nat);
+  ("x/evmutil/keeper/keeper.go|Keeper|field|storeKey storetypes.StoreKey", 10%nat);
+  ("x/evmutil/keeper/msg_server.go|msgServer|field|keeper Keeper", 10%nat);
+  ("x/evmutil/module.go|AppModule|field|(embedded) AppModuleBasic", 10%nat);
+  ("x/evmutil/module.go|AppModule|field|accountKeeer types.AccountKeeper", 10%nat);
+  ("x/evmutil/module.go|AppModule|field|bankKeeper types.BankKeeper", 10%nat);
+  ("x/evmutil/module.go|AppModule|field|keeper keeper.Keeper", 10%nat);
+  ("x/hard/keeper/grpc_query.go|queryServer|field|accountKeeper types.AccountKeeper", 10%nat);
+  ("x/hard/keeper/grpc_query.go|queryServer|field|bankKeeper types.BankKeeper", 10%nat);
+  ("x/hard/keeper/grpc_query.go|queryServer|field|keeper Keeper", 10%nat);
+  ("x/hard/keeper/keeper.go|Keeper.SetPreviousAccrualTime|time.Time.MarshalBinary|previousAccrualTime.MarshalBinary()", 13%nat);
+  ("x/hard/keeper/keeper.go|Keeper|field|accountKeeper types.AccountKeeper", 10%nat);
+  ("x/hard/keeper/keeper.go|Keeper|field|auctionKeeper types.AuctionKeeper", 10%nat);
+  ("x/hard/keeper/keeper.go|Keeper|field|bankKeeper types.BankKeeper", 10%nat);
+  ("x/hard/keeper/keeper.go|Keeper|field|cdc codec.Codec", 10%nat);
+  ("x/hard/keeper/keeper.go|Keeper|field|hooks types.HARDHooks", 10%nat);
+  ("x/hard/keeper/keeper.go|Keeper|field|key storetypes.StoreKey", 10%nat);
+  ("x/hard/keeper/keeper.go|Keeper|field|paramSubspace paramtypes.Subspace", 10%nat);
+  ("x/hard/keeper/keeper.go|Keeper|field|pricefeedKeeper types.PricefeedKeeper", 10%nat);
+  ("x/hard/keeper/msg_server.go|msgServer|field|keeper Keeper", 10%nat);
+  ("x/hard/module.go|AppModule|field|(embedded) AppModuleBasic", 10%nat);
+  ("x/hard/module.go|AppModule|field|accountKeeper types.AccountKeeper", 10%nat);
+  ("x/hard/module.go|AppModule|field|bankKeeper types.BankKeeper", 10%nat);
+  ("x/hard/module.go|AppModule|field|keeper keeper.Keeper", 10%nat);
+  ("x/hard/module.go|AppModule|field|pricefeedKeeper types.PricefeedKeeper", 10%nat);
+  ("x/incentive/keeper/grpc_query.go|queryServer|field|keeper Keeper", 10%nat);
+  ("x/incentive/keeper/hooks.go|Hooks|field|k Keeper", 10%nat);
+  ("x/incentive/keeper/keeper.go|Keeper.SetEarnRewardAccrualTime|time.Time.MarshalBinary|blockTime.MarshalBinary()", 13%nat);
+  ("x/incentive/keeper/keeper.go|Keeper.SetPreviousDelegatorRewardAccrualTime|time.Time.MarshalBinary|blockTime.MarshalBinary()", 13%nat);
+  ("x/incentive/keeper/keeper.go|Keeper.SetPreviousHardBorrowRewardAccrualTime|time.Time.MarshalBinary|blockTime.MarshalBinary()", 13%nat);
+  ("x/incentive/keeper/keeper.go|Keeper.SetPreviousHardSupplyRewardAccrualTime|time.Time.MarshalBinary|blockTime.MarshalBinary()", 13%nat);
+  ("x/incentive/keeper/keeper.go|Keeper.SetPreviousUSDXMintingAccrualTime|time.Time.MarshalBinary|blockTime.MarshalBinary()", 13%nat);
+  ("x/incentive/keeper/keeper.go|Keeper.SetSavingsRewardAccrualTime|time.Time.MarshalBinary|blockTime.MarshalBinary()", 13%nat);
+  ("x/incentive/keeper/keeper.go|Keeper.SetSwapRewardAccrualTime|time.Time.MarshalBinary|blockTime.MarshalBinary()", 13%nat);
+  ("x/incentive/keeper/keeper.go|Keeper|field|accountKeeper types.AccountKeeper", 10%nat);
+  ("x/incentive/keeper/keeper.go|Keeper|field|bankKeeper types.BankKeeper", 10%nat);
+  ("x/incentive/keeper/keeper.go|Keeper|field|cdc codec.Codec", 10%nat);
+  ("x/incentive/keeper/keeper.go|Keeper|field|cdpKeeper types.CdpKeeper", 10%nat);
+  ("x/incentive/keeper/keeper.go|Keeper|field|distrKeeper types.DistrKeeper", 10%nat);
+  ("x/incentive/keeper/keeper.go|Keeper|field|earnKeeper types.EarnKeeper", 10%nat);
+  ("x/incentive/keeper/keeper.go|Keeper|field|hardKeeper types.HardKeeper", 10%nat);
+  ("x/incentive/keeper/keeper.go|Keeper|field|key storetypes.StoreKey", 10%nat);
+  ("x/incentive/keeper/keeper.go|Keeper|field|liquidKeeper types.LiquidKeeper", 10%nat);
+  ("x/incentive/keeper/keeper.go|Keeper|field|mintKeeper types.MintKeeper", 10%nat);
+  ("x/incentive/keeper/keeper.go|Keeper|field|paramSubspace types.ParamSubspace", 10%nat);
+  ("x/incentive/keeper/keeper.go|Keeper|field|pricefeedKeeper types.PricefeedKeeper", 10%nat);
+  ("x/incentive/keeper/keeper.go|Keeper|field|savingsKeeper types.SavingsKeeper", 10%nat);
+  ("x/incentive/keeper/keeper.go|Keeper|field|stakingKeeper types.StakingKeeper", 10%nat);
+  ("x/incentive/keeper/keeper.go|Keeper|field|swapKeeper types.SwapKeeper", 10%nat);
+  ("x/incentive/keeper/msg_server.go|msgServer|field|keeper Keeper", 10%nat);
+  ("x/incentive/module.go|AppModule|field|(embedded) AppModuleBasic", 10%nat);
+  ("x/incentive/module.go|AppModule|field|accountKeeper types.AccountKeeper", 10%nat);
+  ("x/incentive/module.go|AppModule|field|bankKeeper types.BankKeeper", 10%nat);
+  ("x/incentive/module.go|AppModule|field|cdpKeeper types.CdpKeeper", 10%nat);
+  ("x/incentive/module.go|AppModule|field|keeper keeper.Keeper", 10%nat);
+  ("x/incentive/types/params.go|<file>|time.Unix|time.Unix(1, 0)", 12%nat);
+  ("x/issuance/keeper/gprc_query.go|queryServer|field|keeper Keeper", 10%nat);
+  ("x/issuance/keeper/keeper.go|Keeper.SetPreviousBlockTime|time.Time.MarshalBinary|blockTime.MarshalBinary()", 13%nat);
+  ("x/issuance/keeper/keeper.go|Keeper|field|accountKeeper types.AccountKeeper", 10%nat);
+  ("x/issuance/keeper/keeper.go|Keeper|field|bankKeeper types.BankKeeper", 10%nat);
+  ("x/issuance/keeper/keeper.go|Keeper|field|cdc codec.Codec", 10%nat);
+  ("x/issuance/keeper/keeper.go|Keeper|field|key storetypes.StoreKey", 10%nat);
+  ("x/issuance/keeper/keeper.go|Keeper|field|paramSubspace paramtypes.Subspace", 10%nat);
+  ("x/issuance/keeper/msg_server.go|msgServer|field|keeper Keeper", 10%nat);
+  ("x/issuance/module.go|AppModule|field|(embedded) AppModuleBasic", 10%nat);
+  ("x/issuance/module.go|AppModule|field|accountKeeper types.AccountKeeper", 10%nat);
+  ("x/issuance/module.go|AppModule|field|bankKeeper types.BankKeeper", 10%nat);
+  ("x/issuance/module.go|AppModule|field|keeper keeper.Keeper", 10%nat);
+  ("x/kavadist/keeper/grpc_query.go|queryServer|field|keeper Keeper", 10%nat);
+  ("x/kavadist/keeper/keeper.go|Keeper.SetPreviousBlockTime|time.Time.MarshalBinary|blockTime.MarshalBinary()", 13%nat);
+  ("x/kavadist/keeper/keeper.go|Keeper|field|accountKeeper types.AccountKeeper", 10%nat);
+  ("x/kavadist/keeper/keeper.go|Keeper|field|bankKeeper types.BankKeeper", 10%nat);
+  ("x/kavadist/keeper/keeper.go|Keeper|field|blacklistedAddrs map[string]bool", 10%nat);
+  ("x/kavadist/keeper/keeper.go|Keeper|field|cdc codec.BinaryCodec", 10%nat);
+  ("x/kavadist/keeper/keeper.go|Keeper|field|distKeeper types.DistKeeper", 10%nat);
+  ("x/kavadist/keeper/keeper.go|Keeper|field|key storetypes.StoreKey", 10%nat);
+  ("x/kavadist/keeper/keeper.go|Keeper|field|paramSubspace paramtypes.Subspace", 10%nat);
+  ("x/kavadist/module.go|AppModule|field|(embedded) AppModuleBasic", 10%nat);
+  ("x/kavadist/module.go|AppModule|field|accountKeeper types.AccountKeeper", 10%nat);
+  ("x/kavadist/module.go|AppModule|field|keeper keeper.Keeper", 10%nat);
+  ("x/kavadist/types/params.go|<file>|time.Unix|time.Unix(1, 0)", 12%nat);
+  ("x/kavadist/types/params.go|validateInfraParams|time.Unix|time.Unix(0, 0)", 12%nat);
+  ("x/kavadist/types/params.go|validatePeriodsParams|time.Unix|time.Unix(0, 0)", 12%nat);
+  ("x/liquid/keeper/grpc_query.go|queryServer|field|keeper Keeper", 10%nat);
+  ("x/liquid/keeper/keeper.go|Keeper|field|accountKeeper types.AccountKeeper", 10%nat);
+  ("x/liquid/keeper/keeper.go|Keeper|field|bankKeeper types.BankKeeper", 10%nat);
+  ("x/liquid/keeper/keeper.go|Keeper|field|cdc codec.Codec", 10%nat);
+  ("x/liquid/keeper/keeper.go|Keeper|field|derivativeDenom string", 10%nat);
+  ("x/liquid/keeper/keeper.go|Keeper|field|distributionKeeper types.DistributionKeeper", 10%nat);
+  ("x/liquid/keeper/keeper.go|Keeper|field|stakingKeeper types.StakingKeeper", 10%nat);
+  ("x/liquid/keeper/msg_server.go|msgServer|field|keeper Keeper", 10%nat);
+  ("x/liquid/module.go|AppModule|field|(embedded) AppModuleBasic", 10%nat);
+  ("x/liquid/module.go|AppModule|field|keeper keeper.Keeper", 10%nat);
+  ("x/metrics/module.go|AppModule|field|(embedded) AppModuleBasic", 10%nat);
+  ("x/metrics/module.go|AppModule|field|metrics *types.Metrics", 10%nat);
+  ("x/precisebank/keeper/grpc_query.go|queryServer|field|keeper Keeper", 10%nat);
+  ("x/precisebank/keeper/keeper.go|Keeper|field|ak types.AccountKeeper", 10%nat);
+  ("x/precisebank/keeper/keeper.go|Keeper|field|bk types.BankKeeper", 10%nat);
+  ("x/precisebank/keeper/keeper.go|Keeper|field|cdc codec.BinaryCodec", 10%nat);
+  ("x/precisebank/keeper/keeper.go|Keeper|field|storeKey storetypes.StoreKey", 10%nat);
+  ("x/precisebank/module.go|AppModule|field|(embedded) AppModuleBasic", 10%nat);
+  ("x/precisebank/module.go|AppModule|field|accountKeeper types.AccountKeeper", 10%nat);
+  ("x/precisebank/module.go|AppModule|field|bankKeeper types.BankKeeper", 10%nat);
+  ("x/precisebank/module.go|AppModule|field|keeper keeper.Keeper", 10%nat);
+  ("x/pricefeed/keeper/grpc_query.go|queryServer|field|keeper Keeper", 10%nat);
+  ("x/pricefeed/keeper/keeper.go|Keeper|field|cdc codec.Codec", 10%nat);
+  ("x/pricefeed/keeper/keeper.go|Keeper|field|key storetypes.StoreKey", 10%nat);
+  ("x/pricefeed/keeper/keeper.go|Keeper|field|paramSubspace paramtypes.Subspace", 10%nat);
+  ("x/pricefeed/keeper/msg_server.go|msgServer|field|keeper Keeper", 10%nat);
+  ("x/pricefeed/module.go|AppModule|field|(embedded) AppModuleBasic", 10%nat);
+  ("x/pricefeed/module.go|AppModule|field|accountKeeper sdkkeeper.AccountKeeper", 10%nat);
+  ("x/pricefeed/module.go|AppModule|field|keeper keeper.Keeper", 10%nat);
+  ("x/router/keeper/keeper.go|Keeper|field|earnKeeper types.EarnKeeper", 10%nat);
+  ("x/router/keeper/keeper.go|Keeper|field|liquidKeeper types.LiquidKeeper", 10%nat);
+  ("x/router/keeper/keeper.go|Keeper|field|stakingKeeper types.StakingKeeper", 10%nat);
+  ("x/router/keeper/msg_server.go|msgServer|field|keeper Keeper", 10%nat);
+  ("x/router/module.go|AppModule|field|(embedded) AppModuleBasic", 10%nat);
+  ("x/router/module.go|AppModule|field|keeper keeper.Keeper", 10%nat);
+  ("x/savings/keeper/grpc_query.go|queryServer|field|keeper Keeper", 10%nat);
+  ("x/savings/keeper/keeper.go|Keeper|field|accountKeeper types.AccountKeeper", 10%nat);
+  ("x/savings/keeper/keeper.go|Keeper|field|bankKeeper types.BankKeeper", 10%nat);
+  ("x/savings/keeper/keeper.go|Keeper|field|cdc codec.Codec", 10%nat);
+  ("x/savings/keeper/keeper.go|Keeper|field|hooks types.SavingsHooks", 10%nat);
+  ("x/savings/keeper/keeper.go|Keeper|field|key storetypes.StoreKey", 10%nat);
+  ("x/savings/keeper/keeper.go|Keeper|field|liquidKeeper types.LiquidKeeper", 10%nat);
+  ("x/savings/keeper/keeper.go|Keeper|field|paramSubspace paramtypes.Subspace", 10%nat);
+  ("x/savings/keeper/msg_server.go|msgServer|field|keeper Keeper", 10%nat);
+  ("x/savings/module.go|AppModule|field|(embedded) AppModuleBasic", 10%nat);
+  ("x/savings/module.go|AppModule|field|accountKeeper authkeeper.AccountKeeper", 10%nat);
+  ("x/savings/module.go|AppModule|field|bankKeeper types.BankKeeper", 10%nat);
+  ("x/savings/module.go|AppModule|field|keeper keeper.Keeper", 10%nat);
+  ("x/swap/keeper/grpc_query.go|queryServer|field|keeper Keeper", 10%nat);
+  ("x/swap/keeper/keeper.go|Keeper|field|accountKeeper types.AccountKeeper", 10%nat);
+  ("x/swap/keeper/keeper.go|Keeper|field|bankKeeper types.BankKeeper", 10%nat);
+  ("x/swap/keeper/keeper.go|Keeper|field|cdc codec.Codec", 10%nat);
+  ("x/swap/keeper/keeper.go|Keeper|field|hooks types.SwapHooks", 10%nat);
+  ("x/swap/keeper/keeper.go|Keeper|field|key storetypes.StoreKey", 10%nat);
+  ("x/swap/keeper/keeper.go|Keeper|field|paramSubspace paramtypes.Subspace", 10%nat);
+  ("x/swap/keeper/msg_server.go|msgServer|field|keeper Keeper", 10%nat);
+  ("x/swap/module.go|AppModule|field|(embedded) AppModuleBasic", 10%nat);
+  ("x/swap/module.go|AppModule|field|accountKeeper types.AccountKeeper", 10%nat);
+  ("x/swap/module.go|AppModule|field|keeper keeper.Keeper", 10%nat);
+  ("x/swap/types/msg.go|MsgDeposit.GetDeadline|time.Unix|time.Unix(msg.Deadline, 0)", 12%nat);
+  ("x/swap/types/msg.go|MsgSwapExactForTokens.GetDeadline|time.Unix|time.Unix(msg.Deadline, 0)", 12%nat);
+  ("x/swap/types/msg.go|MsgSwapForExactTokens.GetDeadline|time.Unix|time.Unix(msg.Deadline, 0)", 12%nat);
+  ("x/swap/types/msg.go|MsgWithdraw.GetDeadline|time.Unix|time.Unix(msg.Deadline, 0)", 12%nat);
+  ("x/validator-vesting/keeper/grpc_query.go|queryServer|field|bk types.BankKeeper", 10%nat);
+  ("x/validator-vesting/module.go|AppModule|field|(embedded) AppModuleBasic", 10%nat);
+  ("x/validator-vesting/module.go|AppModule|field|bankKeeper types.BankKeeper", 10%nat)
 ].
 
 Definition class_covered (c : nat) : bool :=
   match c with
-  | 1 | 2 | 3 | 4 | 5 | 6 | 7 | 8 => true
+  | 1 | 2 | 3 | 4 | 5 | 6 | 7 | 8 | 10 | 11 | 12 | 13 => true
   | _ => false
   end%nat.
 
